@@ -849,6 +849,22 @@ func (d *Driver) Run(n int) {
 		}
 		d.do(e)
 	}
+	// drain: run the chain across every scheduled height that is still ahead (final expiries, last timeouts),
+	// so that each history is also observed to its end
+	for i := 0; i < 10 && d.Stop == "" && !d.P.ShortBlocks; i++ {
+		sch := d.scheduled()
+		if len(sch) == 0 {
+			break
+		}
+		n := sch[0] - d.St.H + 1
+		if n < 1 {
+			n = 1
+		}
+		if n > 12000 {
+			n = 12000
+		}
+		d.do(Event{Kind: "Blocks", N: n})
+	}
 	if d.Stop == "" {
 		d.do(Event{Kind: "Blocks", N: 1})
 	}
